@@ -310,7 +310,7 @@ def hist_C16(tier):
 
 
 def hist_C07(tier):
-    n = 150 if tier == 'quick' else 4000
+    n = 70 if tier == 'quick' else 4000
 
     def gen(rng, path):
         for h in range(n):
